@@ -55,7 +55,11 @@ pub enum FaultKind {
 /// beyond base + 64 per stream byte the parser is spinning
 const CALL_BUDGET_BASE: u64 = 20_000_000;
 
-const ERROR_KINDS: [ErrorKind; 5] = [ErrorKind::Other, ErrorKind::UnexpectedEof, ErrorKind::WouldBlock, ErrorKind::TimedOut, ErrorKind::InvalidData];
+const ERROR_KINDS: [ErrorKind; 17] = [
+    ErrorKind::Other, ErrorKind::UnexpectedEof, ErrorKind::WouldBlock, ErrorKind::TimedOut, ErrorKind::InvalidData, ErrorKind::Unsupported, ErrorKind::NotFound,
+    ErrorKind::PermissionDenied, ErrorKind::ConnectionReset, ErrorKind::ConnectionAborted, ErrorKind::BrokenPipe, ErrorKind::InvalidInput, ErrorKind::WriteZero,
+    ErrorKind::OutOfMemory, ErrorKind::AlreadyExists, ErrorKind::NotConnected, ErrorKind::AddrInUse,
+];
 
 #[derive(Clone, Copy, Debug)]
 pub struct Fault {
@@ -91,6 +95,8 @@ pub struct IoState {
     pub fired: Vec<(u32, u32)>,
     /// the same for `Interrupted` faults (which a caller may retry)
     pub fired_soft: Vec<(u32, u32)>,
+    /// rotates the error kind of hard faults (derived from the reader's seed)
+    pub kind_salt: usize,
     /// consecutive interrupts delivered (bounded so that a retry loop always makes progress)
     consecutive_interrupts: u32,
     pub interrupts: u64,
@@ -119,6 +125,7 @@ pub fn new_reader(data: Rc<Vec<u8>>, policy: Policy, seed: u64) -> (MonReader, H
         rng: Rng::new(seed),
         fired: Vec::with_capacity(64),
         fired_soft: Vec::new(),
+        kind_salt: (seed % 17) as usize,
         consecutive_interrupts: 0,
         interrupts: 0,
         short_reads: 0,
@@ -208,7 +215,7 @@ impl Read for MonReader {
             };
             s.push(IoEvent { call, api, kind: IoKind::Read, pos, req, outcome });
             return match fk {
-                FaultKind::Error => Err(Error::new(ERROR_KINDS[call as usize % ERROR_KINDS.len()], "injected read fault")),
+                FaultKind::Error => Err(Error::new(ERROR_KINDS[(call as usize + s.kind_salt) % ERROR_KINDS.len()], "injected read fault")),
                 FaultKind::Eof => Ok(0),
                 FaultKind::Interrupted => Err(Error::new(ErrorKind::Interrupted, "injected interrupt")),
             };
@@ -312,7 +319,7 @@ impl Seek for MonReader {
                 s.fired.push((call, api));
             }
             s.push(IoEvent { call, api, kind: IoKind::Seek, pos, req: target.unwrap_or(u64::MAX), outcome: Outcome::FaultError });
-            return Err(Error::new(ERROR_KINDS[call as usize % ERROR_KINDS.len()], "injected seek fault"));
+            return Err(Error::new(ERROR_KINDS[(call as usize + s.kind_salt) % ERROR_KINDS.len()], "injected seek fault"));
         }
         match target {
             Some(t) => {
